@@ -33,7 +33,13 @@ Proof. exact live_distinct. Qed.
 Print Assumptions C29_live_distinct.
 
 (* from its creation until it is dropped, calling a callback (the closure at its address) runs
-   exactly the function it was created with, whatever happens to other callbacks in between *)
+   exactly the function it was created with, whatever happens to other callbacks in between.
+   Reading of "its own Python function with its own signature": b_callback binds ONE object to the
+   closure, the infotuple (signature ctype, Python function, error value, onerror); [f] stands for
+   that tuple, so function and signature are bound together.  "From C or through the cdata": both
+   routes jump to the same closure address and differ only inside libffi / cdata_call, which are
+   not modelled — [Call h] is "control reaches the closure of h"; that the two real routes (and a
+   cast function pointer) behave alike is decided by the correspondence run only. *)
 Theorem C29_call_runs_creator : forall c h1 hh f a h2,
   let s1 := fst (run c init h1) in
   snd (step c s1 (Create hh f)) = OAddr a ->
@@ -63,6 +69,7 @@ Print Assumptions C29_create_fail_no_leak.
 Theorem C29_grows_only_when_empty : forall c s a s1,
   closure_alloc c s = Some (a, s1) -> free_list s <> [] -> nblocks s1 = nblocks s /\ npages s1 = npages s.
 Proof. exact grows_only_when_empty. Qed.
+Print Assumptions C29_grows_only_when_empty.
 Theorem C29_growth_amount : forall c s,
   free_list s = [] ->
   length (free_list (more_core c s)) = N.to_nat (count_of c (grow (npages s))) /\
